@@ -599,6 +599,16 @@ static void gen_floats(Rng &rng, long long count, bool heavy) {
     static const char *texts[] = {"", " ", "0", "1.5", "-1.5e10", "1e400", "-1e400", "1e-400", "inf", "-INF", "nan", "NAN(1)", "0x1p4", "0x1.8p1", " 2.5", "2.5 ", "2.5x", ".5", "5.", "+.5e+2", "e5", "--1", "1,5", "1e", "1e+", "infinity", "infinit"};
     for (const char *t : texts) op_parsef(t);
     op_parsef(Bytes("1.5\0" "2", 5)); op_parsef(Bytes("\0", 1));
+    // texts at and just above the midpoint of two adjacent floats: to_float must round once (strtof), not twice
+    // (strtod, then narrowing), and to_double must not go through float
+    for (int k = 0; k < 60; ++k) {
+        float a = std::ldexp(1.0f + (float)rng.below(1u << 23) / (float)(1u << 23), (int)rng.below(30) - 10);
+        float b = std::nextafterf(a, INFINITY);
+        double m = ((double)a + (double)b) / 2;
+        char t[200]; snprintf(t, sizeof t, "%.90f", m);
+        Bytes exact = t; while (!exact.empty() && exact.back() == '0') exact.pop_back();
+        op_parsef(exact); op_parsef(exact + "0000000000000000000000001"); op_parsef("-" + exact + "1");
+    }
     static const char alpha[] = "0123456789.eE+-xpinfa ";
     for (long long k = 0; k < count / 4 + 50; ++k) { Bytes t; int n = (int)rng.below(16); for (int i = 0; i < n; ++i) t.push_back(alpha[rng.below(sizeof alpha - 1)]); op_parsef(t); }
 }
